@@ -57,6 +57,20 @@ transformations:
     template: true
     conditions:
       src: "$product"
+postprocessing:
+  - id: pwrap
+    type: nest
+    items:
+      - id: pinner
+        type: embed
+        prefix: ""
+        suffix: " #win"
+        rule_conditions:
+          - type: logsource
+            product: windows
+  - id: pshow
+    type: template
+    template: "{{ query }} | applied={{ pipeline.applied_ids | sort | join(',') }}"
 """
 
 
